@@ -168,6 +168,22 @@ def directed() -> list[dict[str, Any]]:
     out.append({'name': 'selfexit-live', 'settings': S, 'quiet': 30.0, 'horizon': 500.0, 'handlers': [
         {'kind': 'create', 'id': 'c1'}, {'kind': 'daemon', 'id': 'dm1', 'persona': {'type': 'selfexit', 'after': 3.0}}],
         'timeline': [[0, 'start', 'op1'], [1, 'create', 'a', {'spec': {'x': 0}}], [8, 'edit', 'a', {'spec': {'x': 1}}]]})
+    # a finalizer decision that met a write conflict (422) earlier in this process must not come back later: the handlers stop requiring the object (label off),
+    # the removal conflicts with a foreign write and succeeds on the next pass; the label comes back (finalizer added anew) and, in one variant, the object is
+    # then deleted: the deletion handler runs and the finalizer stays until it has finished. The same with the conflict on the ADDING patch.
+    for nth in (1, 2):
+        for then_delete in (False, True):
+            for kind_req in ('delete', 'daemon'):
+                req = ({'kind': 'delete', 'id': 'd1', 'script': [['temp', 1], ['ok']], 'opts': {'labels': {'l': 'a'}}} if kind_req == 'delete' else
+                       {'kind': 'daemon', 'id': 'dm1', 'persona': {'type': 'obedient'}, 'opts': {'labels': {'l': 'a'}}})
+                tl = [[0, 'start', 'op1'], [1, 'create', 'a', {'spec': {'x': 0}, 'metadata': {'labels': {'l': 'a'}}}], [5, 'edit', 'a', {'metadata': {'labels': {'l': 'b'}}}],
+                      [10, 'edit', 'a', {'metadata': {'labels': {'l': 'a'}}}], [15, 'edit', 'a', {'spec': {'x': 1}}]]
+                if then_delete:
+                    tl.append([20, 'delete', 'a'])
+                out.append({'name': f'conflict-then-rematch-n{nth}-d{int(then_delete)}-{kind_req}', 'settings': S, 'quiet': 30.0, 'horizon': 500.0,
+                            'handlers': [{'kind': 'create', 'id': 'c1'}, req], 'timeline': tl,
+                            'faults': [{'client': None, 'match': {'kind': 'patch', 'ctype': 'application/json-patch+json'}, 'nth': nth,
+                                        'actions': [['slip', {'op': ['edit', 'a', {'status': {'slipped': nth}}]}]]}]})
     # handlers stop requiring the object (label toggled off) -> finalizer removed without deletion; toggled on -> added again
     out.append({'name': 'unrequire', 'settings': S, 'quiet': 30.0, 'horizon': 500.0, 'handlers': [
         {'kind': 'create', 'id': 'c1'}, {'kind': 'delete', 'id': 'd1', 'opts': {'labels': {'l': 'a'}}},
